@@ -35,6 +35,8 @@ func scripts(n, t int, thorough bool) [][]bnet.Fault {
 		[]bnet.Fault{F("partition", 0, 2), F("partition", 1, 2), F("heal", 0, 4), F("heal", 1, 4)},
 		[]bnet.Fault{{Kind: "cut", Node: 0, Peer: 1, AtRound: 1}, {Kind: "uncut", Node: 0, Peer: 1, AtRound: 4}},
 		[]bnet.Fault{F("partition", 2, 1), F("stop", 0, 2), F("heal", 2, 3), F("restart", 0, 5)},
+		[]bnet.Fault{F("dbfail", 2, 3)},
+		[]bnet.Fault{F("dbfail", 0, 2), F("dbfail", 1, 4)},
 	)
 	if thorough {
 		for i := 1; i < n; i++ {
@@ -91,8 +93,29 @@ func main() {
 		jobs = append(jobs, vlib.E1Job{Name: fmt.Sprintf("c05-live/%s/n=%d/t=%d/%v/rounds=%d/drop=%v/scripts=%d", j.scheme, j.n, j.t, j.be, j.rounds, j.drop, len(sc.Scripts)), Bound: j.bound,
 			Run: func(devs []vrt.Dev) *explore.Exec { return run(sc, devs, false) }, Labeled: func(devs []vrt.Dev) *explore.Exec { return run(sc, devs, true) }})
 	}
+	// c05-stall: a node catching up over a sync stream whose server is cut off in the middle (the stream goes silent, it
+	// does not end): the sync must be renewed with the other peers and the chain must go on once a threshold is connected
+	F := func(k string, node int, at uint64) bnet.Fault { return bnet.Fault{Kind: k, Node: node, AtRound: at} }
+	stall := [][]bnet.Fault{
+		{F("partition", 1, 13), F("heal", 1, 17)},
+		{F("partition", 2, 13), F("heal", 2, 18)},
+		{F("stop", 1, 13), F("restart", 1, 17)},
+	}
+	for _, scheme := range []string{crypto.DefaultSchemeID, crypto.UnchainedSchemeID} {
+		k := bnet.NewKeys(scheme, 3, 2, 3*time.Second, genesis)
+		b := 0
+		if !c.Quick() {
+			b = 1
+		}
+		// node 0 starts ten rounds behind; each packet of its catch-up stream takes 400 ms, so the fault (2.5 s after
+		// the start) hits the stream in the middle; whichever peer it chose (free choice), it must end up level
+		sc := &bnet.Scenario{Keys: k, Backends: []string{"memdb", "memdb", "memdb"}, Rounds: 12, Scripts: stall, SilentCuts: true, SyncPacketLatency: 400 * time.Millisecond,
+			Prefill: []uint64{2, 12, 12}, StartRound: 12}
+		jobs = append(jobs, vlib.E1Job{Name: fmt.Sprintf("c05-stall/%s/n=3/t=2/prefill=[2 12 12]/scripts=%d", scheme, len(stall)), Bound: b,
+			Run: func(devs []vrt.Dev) *explore.Exec { return run(sc, devs, false) }, Labeled: func(devs []vrt.Dev) *explore.Exec { return run(sc, devs, true) }})
+	}
 	c.E1Batch(jobs, time.Until(c.DeadlineIn(150*time.Second, 40*time.Minute)))
 	c.Assume("bounded liveness: 'eventually' is decided as 'by the end of a healed horizon of (missed rounds x catch-up period + 3 periods) under default timing (timers fire when the system is idle)', and as absence of wedged states among all explored prefixes; unbounded fairness-based liveness is not decided",
-		"RPCs are instantaneous calls of the peer's real handler; a partition makes them fail immediately")
+		"RPCs are instantaneous calls of the peer's real handler; a partition makes them fail immediately; in the c05-stall jobs a sync stream that is already open when its link is cut stalls (packets lost silently) instead of ending")
 	c.Finish("one case = one execution of a network of real handlers under one fault script and one schedule; distinct = distinct (script, final heads) outcomes")
 }
